@@ -289,20 +289,26 @@ def po : PtOperation := ⟨ws!"getA", some pm, some pm, []⟩
 def bo (exts : List Ext) : BOperation := ⟨ws!"getA", [], some ⟨exts, [], ws!"l"⟩, some ⟨exts, [], ws!"l"⟩, [], ws!"l"⟩
 def envNs : Option Str := some ws!"http://schemas.xmlsoap.org/soap/envelope/"
 
-theorem rpc_output : (outputOf defs (bo [body]) po ws!"Pt_getA" ws!"rpc" envNs ⟨[body], [], ws!"l"⟩).toOption.map
-    (fun r => bodyEntryNames r.2) = some [ws!"getAOut"] := by decide +kernel
+end Witness
 
-theorem doc_output_with_header :
-    (outputOf defs (bo [header, body]) po ws!"Pt_getA" ws!"document" envNs ⟨[header, body], [], ws!"l"⟩).toOption.map
+/-- the model evaluated on the witness: the response wrapper of `getA` is `getAOut` -/
+theorem witness_rpc_output :
+    (outputOf Witness.defs (Witness.bo [Witness.body]) Witness.po ws!"Pt_getA" ws!"rpc" Witness.envNs
+      ⟨[Witness.body], [], ws!"l"⟩).toOption.map (fun r => bodyEntryNames r.2) = some [ws!"getAOut"] := by
+  decide +kernel
+
+/-- the model evaluated on the witness: `Header` and `Body` of the output envelope are both required -/
+theorem witness_output_with_header :
+    (outputOf Witness.defs (Witness.bo [Witness.header, Witness.body]) Witness.po ws!"Pt_getA" ws!"document"
+      Witness.envNs ⟨[Witness.header, Witness.body], [], ws!"l"⟩).toOption.map
       (fun r => r.2.attrs.map (fun a => (a.name, a.min))) = some [(ws!"Header", none), (ws!"Body", none)] := by
   decide +kernel
-end Witness
 
 /-- **finding C17-rpc-output-wrapper-name**: operation `getA` with output message
 `getAOut` gets the response wrapper `getAOut`. -/
 theorem rpc_output_wrapper_not_operation : ¬ RpcOutputWrapperNamedAfterOperation := by
   intro h
-  have hw := Witness.rpc_output
+  have hw := witness_rpc_output
   cases hr : outputOf Witness.defs (Witness.bo [Witness.body]) Witness.po ws!"Pt_getA" ws!"rpc" Witness.envNs
       ⟨[Witness.body], [], ws!"l"⟩ with
   | error e => rw [hr] at hw; simp [Except.toOption] at hw
@@ -390,7 +396,7 @@ def FaultOnlyResponseFits : Prop :=
 required `Header`. -/
 theorem fault_only_response_does_not_fit : ¬ FaultOnlyResponseFits := by
   intro h
-  have hw := Witness.doc_output_with_header
+  have hw := witness_output_with_header
   cases hr : outputOf Witness.defs (Witness.bo [Witness.header, Witness.body]) Witness.po ws!"Pt_getA" ws!"document"
       Witness.envNs ⟨[Witness.header, Witness.body], [], ws!"l"⟩ with
   | error e => rw [hr] at hw; simp [Except.toOption] at hw
